@@ -4,6 +4,8 @@ C09 — JSON serialization is lossless or loud, and policy-gated.
 import FiddleModel.Model.Serialize
 import FiddleModel.Lemmas.RebuildL
 import FiddleModel.Lemmas.CodegenL
+import FiddleModel.Lemmas.RebuildTotal
+import FiddleModel.Lemmas.RebuildStable
 
 namespace Fiddle
 
@@ -118,5 +120,23 @@ theorem C09_dump_is_faithful (h : Heap) (wf : h.WellFormed) (root r : GVal) (st 
     followPath st.out r p = (followPath h root p).map (imageOf st.memo) := by
   obtain ⟨s, m⟩ := rebuildVal_step h wf _ root {} r st hb (RbSt.inv_init h)
   rw [m.1]; exact followPath_rebuilt h st s.inv p root m.2
+
+/-- The round trip exists for EVERY acyclic configuration (no "if dump_json returned" premise):
+    the table is produced, loading it recreates it exactly, and it is the input path for path. -/
+theorem C09_roundtrip_total (h : Heap) (wf : h.WellFormed) (hd : ∀ o ∈ h, o.defaults = [])
+    (root : GVal) (hr : ∀ i, root = .ref i → i < h.length) :
+    ∃ r st, rebuild h root = .ok (r, st) ∧ (straightLine st.out r).run = some (r, st.out) ∧
+      ∀ p, followPath st.out r p = (followPath h root p).map (imageOf st.memo) := by
+  obtain ⟨r, st, hb⟩ := rebuild_total h wf root hr
+  exact ⟨r, st, hb, C09_load_of_dump h wf hd root r st hb, C09_dump_is_faithful h wf root r st hb⟩
+
+/-- "Serializing the reconstruction again gives the same document": `load_json` recreated the
+    table exactly (`C09_load_of_dump`), and dumping that table again — a second memoized
+    post-order traversal, now over the table itself — writes the very same table with the same
+    root, entry for entry. -/
+theorem C09_redump_is_same_document (h : Heap) (wf : h.WellFormed) (root r : GVal) (st : RbSt)
+    (hb : rebuild h root = .ok (r, st)) :
+    ∃ st2, rebuild st.out r = .ok (r, st2) ∧ st2.out = st.out :=
+  rebuild_stable h wf root r st hb
 
 end Fiddle
